@@ -622,4 +622,347 @@ Proof.
   - cbn [andb app] in W2. split; [assumption|]. intros q Lq. apply L2, L1, Lq.
 Qed.
 
+
+(* ---- Sync.Process ---------------------------------------------------------------- *)
+
+Lemma WInv_store_change : forall extra eps pend s s',
+  WInv extra eps pend s -> s_reqs s' = s_reqs s -> OC (store_of s') ->
+  (forall c, has (store_of s) c = true -> has (store_of s') c = true) ->
+  WInv extra eps pend s'.
+Proof.
+  intros extra eps pend s s' W R O M. destruct W. constructor; rewrite ?R; try assumption.
+  - intros q r b Fq D. destruct (w_kids0 q r b Fq D) as (A & B & nv & Dn & K).
+    split; [assumption|]. split; [assumption|]. exists nv. split; [assumption|].
+    destruct K as [K|K]; [now left|right]. intros c I. destruct (K c I) as [X|[X|X]]; auto.
+  - destruct w_root0 as [X|[X|X]]; auto.
+Qed.
+
+Lemma unexpanded_no_refs : forall extra eps pend s h r,
+  WInv extra eps pend s -> find_req (s_reqs s) h = Some r -> r_data r = None ->
+  count_refs (s_reqs s) h = 0%Z.
+Proof.
+  intros extra eps pend s h r W F D.
+  pose proof (count_refs_nonneg (s_reqs s) h).
+  destruct (Z.leb 1 (count_refs (s_reqs s) h)) eqn:E; [|lia].
+  destruct (count_refs_witness (s_reqs s) h) as (q & rq & Fq & I); [lia | apply (w_uniq _ _ _ _ W) |].
+  destruct (w_par _ _ _ _ W q rq h Fq I) as (pr & Fh & (b & nv & X & _)). congruence.
+Qed.
+
+Lemma put_data_inv : forall s h r b nv L,
+  Inv s -> find_req (s_reqs s) h = Some r -> r_data r = None -> r_raw r = false ->
+  H b = h -> dec b = Some nv ->
+  (stuck (with_data r b) nv \/
+   forall c, In c (required nv) -> has (store_of s) c = true \/ In c L) ->
+  WInv ex0 [] (pendL h L) (set_reqs s (put_req (s_reqs s) (with_data r b))).
+Proof.
+  intros s h r b nv L W F D0 R0 Hb Dn KK.
+  pose proof (find_req_hash _ _ _ F) as HP.
+  set (r1 := with_data r b).
+  assert (FP : forall q, find_req (put_req (s_reqs s) r1) q =
+                         if N.eqb h q then Some r1 else find_req (s_reqs s) q).
+  { intro q. rewrite find_put. unfold r1. cbn [with_data r_hash]. rewrite HP.
+    destruct (N.eqb h q) eqn:E; [|reflexivity]. apply N.eqb_eq in E. subst q. now rewrite F. }
+  assert (CR : forall q, count_refs (put_req (s_reqs s) r1) q = count_refs (s_reqs s) q).
+  { intro q. rewrite (count_refs_put _ _ r q (w_uniq _ _ _ _ W)); [unfold r1; cbn [with_data r_parents]; lia|].
+    unfold r1. cbn [with_data r_hash]. now rewrite HP. }
+  unfold Inv in W. destruct W.
+  constructor; cbn [set_reqs s_reqs]; unfold store_of in *; cbn [set_reqs s_mem s_db] in *.
+  - assumption.
+  - now rewrite keys_put.
+  - assumption.
+  - intros q rq Fq. rewrite FP in Fq. rewrite CR. destruct (N.eqb h q) eqn:E.
+    + apply N.eqb_eq in E. subst q. injection Fq as <-. unfold r1. cbn [with_data r_deps]. eapply w_refs0; eauto.
+    + eapply w_refs0; eauto.
+  - intros q rq p Fq I. rewrite FP in Fq.
+    assert (exists r0, find_req (s_reqs s) q = Some r0 /\ r_parents r0 = r_parents rq) as (r0 & F0 & P0).
+    { destruct (N.eqb h q) eqn:E.
+      - apply N.eqb_eq in E. subst q. injection Fq as <-. exists r. auto.
+      - exists rq. auto. }
+    rewrite <- P0 in I. destruct (w_par0 q r0 p F0 I) as (pr & Fp & X).
+    exists pr. split; [|assumption]. rewrite FP. destruct (N.eqb h p) eqn:E; [|assumption].
+    apply N.eqb_eq in E. subst p. destruct X as (b' & nv' & X & _). congruence.
+  - intros p pr [].
+  - intros q rq bq Fq D. rewrite FP in Fq. destruct (N.eqb h q) eqn:E.
+    + apply N.eqb_eq in E. subst q. injection Fq as <-. unfold r1 in D. cbn [with_data r_data] in D.
+      injection D as <-. split; [assumption|]. split; [exact R0|]. exists nv. split; [assumption|].
+      destruct KK as [KK|KK]; [now left|right]. intros c I. destruct (KK c I) as [X|X]; [now left|].
+      right. right. split; [reflexivity | assumption].
+    + destruct (w_kids0 q rq bq Fq D) as (A & B & nv' & Dn' & K).
+      split; [assumption|]. split; [assumption|]. exists nv'. split; [assumption|].
+      destruct K as [K|K]; [now left|right]. intros c I. destruct (K c I) as [X|[(rc & Fc & Ic)|[]]]; [now left|].
+      right. left. rewrite FP. destruct (N.eqb h c) eqn:E2.
+      * apply N.eqb_eq in E2. subst c. exists r1. split; [reflexivity|]. unfold r1. cbn [with_data r_parents]. congruence.
+      * eauto.
+  - intros q rq Fq. rewrite FP in Fq. destruct (N.eqb h q) eqn:E.
+    + injection Fq as <-. specialize (w_mode0 h r F). unfold mode_ok in *. unfold r1. cbn [with_data r_cb r_raw r_hash]. assumption.
+    + eapply w_mode0; eauto.
+  - destruct w_root0 as [X|[(rr & X)|X]]; auto. right. left. rewrite FP. destruct (N.eqb h root); eauto.
+Qed.
+
+Definition mk_kid (h : hash) (depth : N) (cb : bool) (k : hash) : request :=
+  mkReq k None false [h] depth 0 cb.
+
+Lemma children_inv : forall s h r b nv,
+  Inv s -> find_req (s_reqs s) h = Some r -> r_data r = None -> r_raw r = false ->
+  H b = h -> dec b = Some nv ->
+  let r1 := with_data r b in
+  let s1 := set_reqs s (put_req (s_reqs s) r1) in
+  match children dec s1 r1 nv with
+  | None => Inv s1
+  | Some (s2, reqs) =>
+    exists unknown, reqs = map (mk_kid h (r_depth r + nv_inc nv) (r_cb r)) unknown /\
+      (forall k, In k unknown -> In k (nv_kids nv)) /\
+      WInv ex0 [h] (pendL h unknown) s2 /\ live s2 h
+  end.
+Proof.
+  intros s h r b nv W F D0 R0 Hb Dn r1 s1.
+  pose proof (find_req_hash _ _ _ F) as HP.
+  pose proof (w_mode _ _ _ _ W h r F) as M.
+  assert (NZ : h <> zero_hash) by (rewrite <- Hb; apply Hz).
+  set (unknown := filter (fun k => negb (has (s_mem s1) k) && negb (has (s_db s1) k)) (nv_kids nv)).
+  assert (KN : forall k, In k (nv_kids nv) -> has (store_of s) k = true \/ In k unknown).
+  { intros k I. destruct (negb (has (s_mem s1) k) && negb (has (s_db s1) k)) eqn:E.
+    - right. unfold unknown. apply filter_In. auto.
+    - left. unfold store_of. rewrite has_app, has_rev. unfold s1 in E. cbn [set_reqs s_mem s_db] in E.
+      destruct (has (s_mem s) k); [reflexivity|]. destruct (has (s_db s) k); [reflexivity | discriminate]. }
+  assert (L1 : live s1 h).
+  { exists r1. unfold s1. cbn [set_reqs s_reqs]. rewrite find_put. unfold r1. cbn [with_data r_hash].
+    rewrite HP, N.eqb_refl, F. reflexivity. }
+  assert (EXP : ~ stuck r1 nv -> forall pr, find_req (s_reqs s1) h = Some pr -> expanded pr).
+  { intros NS pr Fp. unfold s1 in Fp. cbn [set_reqs s_reqs] in Fp. rewrite find_put in Fp.
+    unfold r1 in Fp. cbn [with_data r_hash] in Fp. rewrite HP, N.eqb_refl, F in Fp. injection Fp as <-.
+    exists b, nv. auto. }
+  assert (REQS : map (fun k => mkReq k None false [r_hash r1] (r_depth r1 + nv_inc nv) 0 (r_cb r1)) unknown
+                 = map (mk_kid h (r_depth r + nv_inc nv) (r_cb r)) unknown).
+  { unfold r1. cbn [with_data r_hash r_depth r_cb]. rewrite HP. reflexivity. }
+  unfold children. fold unknown. rewrite REQS.
+  assert (CB1 : r_cb r1 = r_cb r) by reflexivity. rewrite CB1.
+  destruct (r_cb r) eqn:CB.
+  - (* the state callback runs on the value child *)
+    assert (CB0 : cb0 = true).
+    { destruct (Bool.bool_dec cb0 true) as [|N]; [assumption|]. apply Bool.not_true_is_false in N.
+      destruct M as (M1 & _). destruct (M1 N). congruence. }
+    destruct (nv_val nv) as [[|a]|] eqn:V.
+    + (* not an account: the callback fails, the request stays as it is *)
+      cbn [state_callback].
+      eapply WInv_weaken; [eapply (put_data_inv s h r b nv []); eauto| | apply incl_refl |].
+      * left. split; [exact CB | exact V].
+      * intro q. unfold ex0. lia.
+      * intros q c (_ & []).
+    + assert (NS : ~ stuck r1 nv) by (intros (_ & X); congruence).
+      assert (W1 : WInv ex0 [h] (pendL h (acct_targets a ++ unknown)) s1).
+      { apply WInv_add_eps; [|now apply EXP].
+        eapply (put_data_inv s h r b nv); eauto. right. intros c I. unfold required in I.
+        rewrite CB0, V in I. cbn [val_targets] in I. apply in_app_or in I. destruct I as [I|I].
+        - destruct (KN c I); [now left | right; apply in_or_app; now right].
+        - right. apply in_or_app. now left. }
+      destruct (state_callback dec s1 (PAcct a) (r_hash r1)) as [s2|] eqn:E; [|discriminate E].
+      unfold r1 in E. cbn [with_data r_hash] in E. rewrite HP in E.
+      destruct (state_callback_inv unknown s1 h a b nv s2 W1 NZ L1 CB0 Dn V E) as (W2 & L2).
+      exists unknown. split; [reflexivity|]. split; [|split; [assumption | now apply L2]].
+      intros k I. unfold unknown in I. apply filter_In in I. tauto.
+    + assert (NS : ~ stuck r1 nv) by (intros (_ & X); congruence).
+      exists unknown. split; [reflexivity|]. split; [|split; [|assumption]].
+      * intros k I. unfold unknown in I. apply filter_In in I. tauto.
+      * apply WInv_add_eps; [|now apply EXP].
+        eapply (put_data_inv s h r b nv); eauto. right. intros c I. unfold required in I.
+        rewrite V in I. cbn [val_targets] in I.
+        assert (X : (if cb0 then @nil hash else []) = []) by (destruct cb0; reflexivity).
+        rewrite X, app_nil_r in I. now apply KN.
+  - (* no callback *)
+    assert (NS : ~ stuck r1 nv) by (intros (X & _); unfold r1 in X; cbn [with_data r_cb] in X; congruence).
+    exists unknown. split; [reflexivity|]. split; [|split; [|assumption]].
+    + intros k I. unfold unknown in I. apply filter_In in I. tauto.
+    + apply WInv_add_eps; [|now apply EXP].
+      eapply (put_data_inv s h r b nv); eauto. right. intros c I. unfold required in I.
+      apply in_app_or in I. destruct I as [I|I]; [now apply KN|].
+      destruct (Bool.bool_dec cb0 true) as [CB0|CB0];
+        [|apply Bool.not_true_is_false in CB0; rewrite CB0 in I; destruct I].
+      rewrite CB0 in I.
+      destruct M as (_ & M2). destruct (M2 CB0) as (M3 & _).
+      specialize (M3 CB R0). rewrite HP, <- Hb in M3.
+      destruct (nv_val nv) as [[|a]|] eqn:V; cbn [val_targets] in I; try destruct I.
+      exfalso. eapply (K2 CB0 b nv a); eauto.
+Qed.
+
+Lemma fold_schedule_inv : forall h depth cb unknown st,
+  WInv (exh h (Z.of_nat (length unknown))) [h] (pendL h unknown) st -> live st h ->
+  (forall k, In k unknown -> mode_ok (mk_kid h depth cb k)) ->
+  WInv ex0 [h] nopend (fold_left schedule (map (mk_kid h depth cb) unknown) st).
+Proof.
+  intros h depth cb. induction unknown as [|k u IH]; intros st W L M; cbn [map fold_left].
+  - eapply WInv_weaken; eauto.
+    + intro q. unfold exh, ex0. cbn [length Z.of_nat]. destruct (N.eqb q h); lia.
+    + apply incl_refl.
+    + intros q c (_ & []).
+  - unfold mk_kid at 2.
+    destruct (schedule_inv (Z.of_nat (length (k :: u))) u st h k false depth cb W) as (W1 & L1).
+    + cbn [length]. lia.
+    + assumption.
+    + apply (M k). now left.
+    + apply IH.
+      * eapply exh_weaken; eauto. cbn [length]. lia.
+      * now apply L1.
+      * intros k' I. apply M. now right.
+Qed.
+
+Lemma raw_commit_inv : forall s h r b,
+  Inv s -> find_req (s_reqs s) h = Some r -> r_data r = None -> r_raw r = true -> H b = h ->
+  let r1 := with_data r b in
+  let s1 := set_reqs s (put_req (s_reqs s) r1) in
+  Inv (commit (fuel_of s1) s1 r1).
+Proof.
+  intros s h r b W F D0 R1 Hb r1 s1.
+  pose proof (find_req_hash _ _ _ F) as HP.
+  unfold fuel_of. rewrite (commit_S _ _ _ b); [|reflexivity].
+  assert (HD : head s1 (r_hash r1) b = head s h b).
+  { unfold head, s1. cbn [set_reqs s_db s_mem s_reqs s_queue]. rewrite del_put.
+    unfold r1. cbn [with_data r_hash]. rewrite HP. reflexivity. }
+  rewrite HD. unfold r1 at 1. cbn [with_data r_parents].
+  apply notify_spec_all; [intro q; unfold ex0; lia|].
+  eapply head_inv; eauto.
+  - eapply unexpanded_no_refs; eauto.
+  - intros nv Dn c I. exfalso.
+    pose proof (w_mode _ _ _ _ W h r F) as (M1 & M2).
+    destruct (Bool.bool_dec cb0 true) as [CB0|CB0].
+    + destruct (M2 CB0) as (_ & M3). specialize (M3 R1). rewrite HP, <- Hb in M3.
+      rewrite (K1 CB0 b nv M3 Dn) in I. destruct I.
+    + apply Bool.not_true_is_false in CB0. destruct (M1 CB0). congruence.
+Qed.
+
+Definition honest (items : list (hash * blob)) : Prop := forall h b, In (h, b) items -> H b = h.
+
+Lemma process_inv : forall items i c s, Inv s -> honest items ->
+  Inv (fst (process_from dec i c s items)).
+Proof.
+  induction items as [|[h b] items IH]; intros i c s W HO; cbn [process_from]; [exact W|].
+  assert (Hb : H b = h) by (apply HO; now left).
+  assert (HO' : honest items) by (intros h' b' I; apply HO; now right).
+  destruct (find_req (s_reqs s) h) as [r|] eqn:F; [|exact W].
+  destruct (r_data r) eqn:D0; [exact W|].
+  destruct (r_raw r) eqn:R0.
+  - apply IH; [|assumption]. exact (raw_commit_inv s h r b W F D0 R0 Hb).
+  - destruct (dec b) as [nv|] eqn:Dn; [|exact W].
+    pose proof (children_inv s h r b nv W F D0 R0 Hb Dn) as CH. cbv zeta in CH.
+    destruct (children dec (set_reqs s (put_req (s_reqs s) (with_data r b))) (with_data r b) nv) as [[s2 reqs]|]; [|exact CH].
+    destruct CH as (unknown & -> & UK & W2 & (r2 & F2)).
+    rewrite F2.
+    pose proof (w_mode _ _ _ _ W h r F) as M.
+    pose proof (find_req_hash _ _ _ F) as HP.
+    destruct (Nat.eqb (length (map (mk_kid h (r_depth r + nv_inc nv) (r_cb r)) unknown)) 0 && Z.eqb (r_deps r2) 0) eqn:E.
+    + apply andb_true_iff in E. destruct E as (E1 & E2). apply Nat.eqb_eq in E1. apply Z.eqb_eq in E2.
+      rewrite map_length in E1. destruct unknown; [|discriminate E1].
+      apply IH; [|assumption].
+      assert (W2' : WInv ex0 [h] nopend s2).
+      { eapply WInv_weaken; eauto; [intro q; unfold ex0; lia | apply incl_refl | intros q c' (_ & [])]. }
+      eapply WInv_weaken; [eapply (commit_spec_all (fuel_of s2) s2 h r2 ex0 [h]); eauto| | |].
+      * intro q. unfold ex0. lia.
+      * eapply (w_eps _ _ _ _ W2'); [now left | eassumption].
+      * pose proof (w_refs _ _ _ _ W2' h r2 F2) as X. pose proof (count_refs_nonneg (s_reqs s2) h). unfold ex0 in X. lia.
+      * intro q. unfold ex0. lia.
+      * intros q I. destruct I.
+      * auto.
+    + apply IH; [|assumption].
+      set (n := Z.of_nat (length (map (mk_kid h (r_depth r + nv_inc nv) (r_cb r)) unknown))).
+      set (s3 := set_reqs s2 (put_req (s_reqs s2) (with_deps r2 (r_deps r2 + n)))).
+      assert (W3 : WInv (exh h (Z.of_nat (length unknown))) [h] (pendL h unknown) s3).
+      { unfold s3. eapply put_deps_inv; eauto.
+        - intro q. unfold exh. destruct (N.eqb q h); lia.
+        - intros q NE. unfold exh, ex0. apply N.eqb_neq in NE. rewrite NE. lia.
+        - pose proof (w_refs _ _ _ _ W2 h r2 F2) as X. unfold ex0, exh in *. rewrite N.eqb_refl.
+          unfold n. rewrite map_length. lia. }
+      assert (L3 : live s3 h).
+      { exists (with_deps r2 (r_deps r2 + n)). unfold s3. cbn [set_reqs s_reqs]. rewrite find_put.
+        cbn [with_deps r_hash]. rewrite (find_req_hash _ _ _ F2), N.eqb_refl, F2. reflexivity. }
+      eapply WInv_weaken; [eapply fold_schedule_inv; eauto| | |]; auto.
+      * intros k I. unfold mk_kid, mode_ok. cbn [r_cb r_raw r_hash]. destruct M as (M1 & M2). split.
+        -- intro C0. destruct (M1 C0). auto.
+        -- intro C0. destruct (M2 C0) as (M3 & _). split; [|discriminate].
+           intros CB _. specialize (M3 CB R0). rewrite HP, <- Hb in M3. eapply sto_kid; eauto.
+      * intro q. unfold ex0. lia.
+      * intros q I. destruct I.
+Qed.
+
+(* ---- Sync.Commit, NewSync, histories ------------------------------------------ *)
+
+Lemma commit_db_inv : forall s lim, Inv s -> Inv (fst (commit_db s lim)).
+Proof.
+  intros s lim W.
+  assert (FULL : Inv (mkSync (rev (s_mem s) ++ s_db s) [] (s_reqs s) (s_queue s))).
+  { eapply WInv_store_change with (s := s); [exact W | reflexivity | |].
+    - unfold store_of; cbn [s_mem s_db rev app]. apply (w_oc _ _ _ _ W).
+    - unfold store_of; cbn [s_mem s_db rev app]. auto. }
+  unfold commit_db. destruct lim as [k|]; [|exact FULL].
+  destruct (N.ltb k (N.of_nat (length (s_mem s)))); [|exact FULL]. cbn [fst].
+  eapply WInv_store_change with (s := s); [exact W | reflexivity | |]; unfold store_of; cbn [s_mem s_db].
+  - pose proof (w_oc _ _ _ _ W) as O. unfold store_of in O.
+    apply OC_insert; [assumption|].
+    rewrite <- (firstn_skipn (N.to_nat k) (s_mem s)) in O at 1.
+    rewrite rev_app_distr, <- app_assoc in O. eapply OC_app_r; eauto.
+  - intro c. rewrite !has_app. intro X. apply orb_true_iff in X. destruct X as [X|X]; rewrite X;
+      [reflexivity | rewrite !orb_true_r; reflexivity].
+Qed.
+
+Lemma new_sync_inv : forall db, OC db -> Inv (new_sync dec root cb0 db).
+Proof.
+  intros db O.
+  assert (EMPTY : (root = empty_root \/ has db root = true) -> Inv (mkSync db [] [] [])).
+  { intro RT. constructor; unfold store_of; cbn [s_mem s_db s_reqs rev app find_req map].
+    - assumption.
+    - constructor.
+    - intro q. unfold ex0. lia.
+    - intros q r Fq. discriminate Fq.
+    - intros q r p Fq. discriminate Fq.
+    - intros p pr [].
+    - intros q r b Fq. discriminate Fq.
+    - intros q r Fq. discriminate Fq.
+    - destruct RT; auto. }
+  unfold new_sync, add_sub_trie. cbn [s_mem s_db].
+  destruct (N.eqb root empty_root) eqn:E1; [apply EMPTY; left; now apply N.eqb_eq|].
+  cbn [has get].
+  assert (NEW : Inv (link_and_schedule (mkSync db [] [] []) (mkReq root None false [] 0 0 cb0) zero_hash)).
+  { unfold link_and_schedule. rewrite N.eqb_refl. cbn [negb]. unfold schedule. cbn [s_reqs find_req r_hash].
+    constructor; unfold store_of; cbn [s_mem s_db s_reqs rev app r_hash r_depth s_queue].
+    - assumption.
+    - cbn [map r_hash]. constructor; [intros [] | constructor].
+    - intro q. unfold ex0. lia.
+    - intros q r Fq. cbn [find_req r_hash] in Fq. cbn [count_refs r_parents]. rewrite occ_nil.
+      destruct (N.eqb root q); [|discriminate]. injection Fq as <-. cbn [r_deps]. unfold ex0. lia.
+    - intros q r p Fq I. cbn [find_req r_hash] in Fq. destruct (N.eqb root q); [|discriminate].
+      injection Fq as <-. destruct I.
+    - intros p pr [].
+    - intros q r b Fq D. cbn [find_req r_hash] in Fq. destruct (N.eqb root q); [|discriminate].
+      injection Fq as <-. discriminate D.
+    - intros q r Fq. cbn [find_req r_hash] in Fq. destruct (N.eqb root q); [|discriminate].
+      injection Fq as <-. unfold mode_ok. cbn [r_cb r_raw r_hash]. split.
+      + intro C. auto.
+      + intro C. split; [intros C1; congruence | discriminate].
+    - right. left. cbn [find_req r_hash]. rewrite N.eqb_refl. eauto. }
+  destruct (get db root) as [b|] eqn:G; [|exact NEW].
+  destruct (dec b); [|exact NEW].
+  apply EMPTY. right. eapply get_has; eauto.
+Qed.
+
+Definition honest_op (o : op) : Prop :=
+  match o with OProcess items => honest items | _ => True end.
+
+Lemma step_inv : forall s o, Inv s -> honest_op o -> Inv (step H dec root cb0 s o).
+Proof.
+  intros s o W HO. destruct o as [items|b|lim|]; cbn [step].
+  - now apply process_inv.
+  - unfold deliver, process. apply process_inv; [assumption|].
+    intros h' b' [E|[]]. injection E as <- <-. reflexivity.
+  - now apply commit_db_inv.
+  - apply new_sync_inv. pose proof (w_oc _ _ _ _ W) as O. unfold store_of in O. eapply OC_app_r; eauto.
+Qed.
+
+Lemma run_inv : forall db0 ops, OC db0 -> Forall honest_op ops -> Inv (run H dec root cb0 db0 ops).
+Proof.
+  intros db0 ops O HO. unfold run.
+  assert (G : forall ops s, Inv s -> Forall honest_op ops -> Inv (fold_left (step H dec root cb0) ops s)).
+  { induction ops0 as [|o ops0 IH]; intros s W F; cbn [fold_left]; [assumption|].
+    inversion F; subst. apply IH; [now apply step_inv | assumption]. }
+  apply G; [now apply new_sync_inv | assumption].
+Qed.
+
 End Inv.
